@@ -113,6 +113,7 @@ class Env:
         self.deny_reason = "no free workers, increase server threadpool size"   # replaced by the literal found in the source
         self.silences = 0
         self.fillers = []
+        self.saved_hook = None
 
     def server(self, sty, envname="plain"):
         if self.envname != envname:
@@ -202,6 +203,10 @@ class Env:
         elif envname == "poolfull":
             srv = rd.Server("thread", commtimeout=COMMTO, pool_size=2, pool_min=1, **kw).start()
         else:
+            # the validator of this environment kills worker threads with SystemExit & co: keep their tracebacks off stderr
+            if self.saved_hook is None:
+                self.saved_hook = threading.excepthook
+                threading.excepthook = lambda args: None
             srv = rd.Server(sty, pool_size=8, pool_min=1, **kw).start()
         srv.register(Target(), OBJ)
         if envname == "poolfull":
@@ -231,6 +236,9 @@ class Env:
                 pass
         self.servers = {}
         self.envname = None
+        if self.saved_hook is not None:
+            threading.excepthook = self.saved_hook
+            self.saved_hook = None
 
 
 def _peer_port():
